@@ -123,7 +123,11 @@ def Reader.hview (r : Reader σ) : Heap := fun i => (r.heap i).view
 def Reader.setB (r : Reader σ) (id : Nat) (b : RBlk) : Reader σ :=
   { r with heap := fun i => if i = id then b else r.heap i }
 
-def RBlk.txOffset (b : RBlk) : Int × Nat := (b.offFile, b.offBlock)
+/-- `block.txOffset()` (with fix C02-1): `offset`, except at the end of a block that holds more than 0xffff bytes —
+the 16-bit in-block offset has wrapped to 0 there, and the position reported is the start of the next block -/
+def RBlk.txOffset (b : RBlk) : Int × Nat :=
+  if b.hasData && b.len == 0 && decide (65535 < b.data.length) && decide (0 ≤ b.next) then (b.next, 0)
+  else (b.offFile, b.offBlock)
 
 /-- `cachePut(b)` with the cache `c`: `(reader, cache, block handed back, retained)` -/
 def cachePut (o : CacheOps σ) (r : Reader σ) (c : σ) (b : Option Nat) :
@@ -353,8 +357,9 @@ def byteFin (r : Reader σ) : Except Fault (Reader σ × List Nat × ErrClass) :
     match (b.data.drop b.pos).head? with
     | none => .error .panic
     | some x =>
-      let r3 := r.setB id { b with pos := b.pos + 1, offBlock := (b.offBlock + 1) % 65536, used := true }
-      .ok ({ r3 with chunkBegin := b.txOffset, chunkEnd := (b.offFile, (b.offBlock + 1) % 65536) }, [x], .ok)
+      let b' : RBlk := { b with pos := b.pos + 1, offBlock := (b.offBlock + 1) % 65536, used := true }
+      let r3 := r.setB id b'
+      .ok ({ r3 with chunkBegin := b.txOffset, chunkEnd := b'.txOffset }, [x], .ok)
 
 /-- `ReadByte()` -/
 def readByte (cfg : Cfg) (o : CacheOps σ) (f : File) (r : Reader σ) :
